@@ -953,3 +953,89 @@ def run(ctx):
                                   file=g.file, line=n.lineno)
     ctx.count("structure_sites", nsite)
     ctx.count("iterators_decoded", len(regions))
+
+    # -- R14.3 (grid indices) ---------------------------------------------------------------------------
+    # row_idx / col_idx are positions among the rows of the table / the cells of the row.  `parent.<x>_lst.index(self)` is that by
+    # construction; `parent.index(self) - k` counts every child of the parent and is right only when the schema puts exactly k
+    # elements in front of the first <x> in every valid parent (decided on the content-model automaton).
+    def preceding_counts(tq, cq, bound=6):
+        A = S.automaton(tq)
+        out, seen, todo = set(), set(), [(A.run([]), 0)]
+        while todo:
+            st, k = todo.pop()
+            if not st or (st, k) in seen or k > bound:
+                if k > bound:
+                    out.add(None)
+                continue
+            seen.add((st, k))
+            for sym in A.live_symbols(st):
+                if sym == cq:
+                    out.add(k)
+                else:
+                    todo.append((A.step(st, sym), k + 1))
+        return out
+
+    trc = omod.classes.get("CT_TableRow")
+    for owner, prop, ptag, ctag, lst in ((trc, "row_idx", "a:tbl", "a:tr", "tr_lst"), (tcc, "col_idx", "a:tr", "a:tc", "tc_lst")):
+        f = owner.methods.get(prop) if owner else None
+        if f is None:
+            raise AnalysisError("anchor vanished: %s.%s" % (owner.name if owner else "?", prop))
+        key = "%s.%s" % (owner.name, prop)
+        rv_ = returned(f, local_only=True)
+
+        def strip_cast(e):
+            class C(ast.NodeTransformer):
+                def visit_Call(self, n):
+                    self.generic_visit(n)
+                    return n.args[1] if dotted(n.func) == "cast" and len(n.args) == 2 else n
+            return C().visit(e)
+        if len(rv_) != 1:
+            ctx.error(key, "the index computation is not a single returned expression")
+            continue
+        e = strip_cast(rv_[0])
+        k_off = 0
+        if isinstance(e, ast.BinOp) and isinstance(e.op, ast.Sub) and isinstance(e.right, ast.Constant) and isinstance(e.right.value, int):
+            e, k_off = e.left, e.right.value
+        src_ = ast.unparse(e)
+        if src_ == "self.getparent().%s.index(self)" % lst and k_off == 0:
+            ctx.ok("R14.3", key, sample={"index": "position in the parent's %s" % lst})
+        elif src_ == "self.getparent().index(self)":
+            pq, cq = prog.qn(ptag), prog.qn(ctag)
+            counts = set()
+            for tq in sorted(x for x in S.elem_decls.get(pq, ()) if x in S.ctypes):
+                counts |= preceding_counts(tq, cq)
+            if counts == {k_off}:
+                ctx.ok("R14.3", key, sample={"index": "position among all children minus %d" % k_off,
+                                             "schema": "exactly %d element(s) precede the first <%s> in <%s>" % (k_off, ctag, ptag)})
+            else:
+                ctx.violation("R14.3", key, "the index is the position among all children of <%s> minus %d, but the schema allows %s element(s) in front "
+                              "of the first <%s> (optional ones may be absent): the grid index is off, merges and splits act on other cells"
+                              % (ptag, k_off, sorted(str(c) for c in counts), ctag), file=f.file, line=f.line)
+        else:
+            ctx.error(key, "index computation `%s` not recognised" % ast.unparse(rv_[0])[:80])
+
+    # -- R14.6 -------------------------------------------------------------------------------------------
+    ctx.rule("R14.6", "the emptiness test that lets a merge skip or overwrite a cell's text looks at every kind of paragraph content")
+    tb = prog.cls("pptx.oxml.text", "CT_TextBody")
+    ie = prog.lookup(tb, "is_empty") if tb else None
+    apf = tcc.methods.get("append_ps_from")
+    if ie is None or apf is None:
+        raise AnalysisError("anchor vanished: CT_TextBody.is_empty / CT_TableCell.append_ps_from")
+    if not any(isinstance(n, ast.Attribute) and n.attr == "is_empty" for n in ast.walk(_expand(prog, apf, local_only=True))):
+        ctx.ok("R14.6", "CT_TableCell.append_ps_from", nontrivial=False)   # no emptiness shortcut: every paragraph is moved
+    else:
+        iex = _expand(prog, ie, depth=2, local_only=True)
+        FULL = {"text", "content_children"}                      # readers that cover a:r, a:br and a:fld
+        PART = {"r_lst": "a:r", "br_lst": "a:br", "fld_lst": "a:fld"}
+        seen_full = {n.attr for n in ast.walk(iex) if isinstance(n, ast.Attribute) and n.attr in FULL and dotted(n.value) != "self"}
+        seen_part = {PART[n.attr] for n in ast.walk(iex) if isinstance(n, ast.Attribute) and n.attr in PART and dotted(n.value) != "self"}
+        if seen_full:
+            ctx.ok("R14.6", "CT_TextBody.is_empty", sample={"decides_on": sorted(seen_full), "covers": ["a:r", "a:br", "a:fld"]})
+        elif seen_part and seen_part != set(PART.values()):
+            ctx.violation("R14.6", "CT_TextBody.is_empty", "emptiness is decided on %s only: a cell whose text comes from %s counts as empty, and a merge "
+                          "drops (spanned cell) or overwrites (origin cell) that text" % (sorted(seen_part), sorted(set(PART.values()) - seen_part)),
+                          file=ie.file, line=ie.line)
+        elif seen_part:
+            ctx.ok("R14.6", "CT_TextBody.is_empty", sample={"decides_on": sorted(seen_part)})
+        else:
+            ctx.error("CT_TextBody.is_empty", "what the emptiness test reads of the paragraph is not recognised")
